@@ -139,6 +139,20 @@ def colcase_coq(ci, ser):
                                       coq_list([chunk_coq(c, fid) for c in ser["out"] or []]))
 
 
+def mergecase_coq(ci, ser):
+    fid = {f: i for i, f in enumerate(ser["fields"])}
+    return "mkmc %d%%nat %s %s %s %s" % (ci["maxrows"], coq_list([coq_n(i) for i in range(len(ser["fields"]))]),
+                                         coq_list([chunk_coq(c, fid) for c in ser.get("in") or []]),
+                                         coq_list([chunk_coq(c, fid) for c in ser.get("uin") or []]),
+                                         coq_list([chunk_coq(c, fid) for c in ser.get("out") or []]))
+
+
+MERGECODES = {70: "a column of a chunk has another number of rows than its time column",
+              71: "input chunks of the series are not strictly ascending in time (premise of C03_merge_column_lww)",
+              72: "a column of the series in the new ordered files differs from the model (MergeModel.merge_series: last-write-wins overlay of "
+                  "the ordered chunks and the out-of-order files oldest first)",
+              73: "a chunk written by the merge is not well-formed (segments of max-rows, the last one shorter)"}
+
 COLCODES = {50: "an input chunk is not well-formed (inner segment shorter/longer than max-rows-per-segment, or a column segment of another length than its time segment)",
             51: "the series was not written into exactly one output chunk",
             52: "time segments written by the compaction differ from the model (ColModel.compact_col)",
@@ -310,11 +324,15 @@ def main(ck):
                               "Go harness cmd/c03 (crash, column, fault cases; fault-injecting VFS; one child process per column case) + "
                               "internal/crashfs (recording VFS, image copy), python driver props/C03/run.py",
                               "hooks lib/fileops/verif_export_c03.go (VerifSwapLocalFS), engine/immutable/verif_export_c09.go (stored counts)"]
+    ck.log("phase: start")
     ck.coq_audit(["C03"])
-    ok = ck.coq_build(["C03/Proofs.vo", "C03/Corr.vo", "C03/ColProofs.vo", "C03/ColCorr.vo", "C03/FaultProofs.vo", "C03/FaultCorr.vo"])
+    ok = ck.coq_build(["C03/Proofs.vo", "C03/Corr.vo", "C03/ColProofs.vo", "C03/ColCorr.vo", "C03/ColLimProofs.vo", "C03/MergeProofs.vo", "C03/MergeCorr.vo",
+                       "C03/FaultProofs.vo", "C03/FaultCorr.vo"])
     if ok:
         ck.coq_props(["C03/Props.v", "C03/Refuted.v"])
+    ck.log("phase: coq built and property theorems re-checked")
     binp = ck.go_build("./cmd/c03", "c03")
+    ck.log("phase: harness built")
     if not binp:
         return
     n = 24 if ck.tier == "quick" else 120    # thorough: every torn prefix and every recovery sub-image, ~10 s per case
@@ -350,11 +368,25 @@ def main(ck):
             cols = [c for c in cols if c["colcase"] == cc]
             insts = insts or [dict(DUMMY)]
     else:
-        rc, out = ck.run([binp, str(n), str(ncol), str(nseg), str(nfault), str(nchg), str(ncur)], timeout=5400)
+        # the independent parts of the harness run as parallel processes (each part has its own PRNG stream of the seed; the
+        # crash cases are split by index range, every case keeps its input)
+        from concurrent.futures import ThreadPoolExecutor
+        half = n // 2
+        jobs = [([binp, str(n), "0", "0", "0", "0", "0"], {"C03_CASE_RANGE": "0:%d" % half}),
+                ([binp, str(n), "0", "0", "0", "0", "0"], {"C03_CASE_RANGE": "%d:%d" % (half, n)}),
+                ([binp, "0", str(ncol), str(nseg), "0", str(nchg), "0"], {}),
+                ([binp, "0", "0", "0", str(nfault), "0", str(ncur)], {})]
+        with ThreadPoolExecutor(max_workers=len(jobs)) as ex:
+            results = list(ex.map(lambda j: ck.run(j[0], timeout=5400, env=j[1]), jobs))
+        rc = max(abs(r[0]) for r in results)
+        out = "\n".join(r[1] for r in results)
+        if any("c03 done" not in r[1] for r in results):
+            out = out.replace("c03 done", "c03 part done")      # one part died: the whole run counts as crashed
         insts = [json.loads(l) for l in out.splitlines() if l.startswith('{"case"')]
         cols = [json.loads(l) for l in out.splitlines() if l.startswith('{"colcase"')]
         faults = [json.loads(l) for l in out.splitlines() if l.startswith('{"faultcase"')]
         curs = [json.loads(l) for l in out.splitlines() if l.startswith('{"curcase"')]
+    ck.log("phase: harness run")
     crashed = rc != 0 or "c03 done" not in out
     if crashed:
         # the real code panicked / the harness died: still apply the direct oracle to what was observed before
@@ -473,27 +505,15 @@ def main(ck):
                       "Import ListNotations. Open Scope N_scope.\n"
                       "Definition cases : list ccase := [\n%s\n].\n"
                       "Definition M := Eval vm_compute in mismatches cases.\nPrint M.\n" % ";\n".join([canary] * NCAN)))
-    res = ck.coq_eval_many(files) if ok else []
-    if canary:
-        rc2, o = res.pop()
-        tups = eval_tuples(o, rc2, 3)
-        if tups is None or {t[0] for t in tups} != set(range(NCAN)):
-            ck.broken.append("C03 canary: a corrupted case was not reported by the model evaluation (%d copies of a protocol instance "
-                             "with one changed crash image; read back: %s)" % (NCAN, o[-300:] if tups is None else sorted(tups)[:NCAN]))
-    elif ok and mod and not ck.replay:
-        ck.broken.append("C03 canary: no protocol instance with a non-empty crash image to build the corrupted case from")
-    mism = []
-    for idx, (rc2, o) in enumerate(res):
-        tups = eval_tuples(o, rc2, 3)
-        if tups is None:
-            ck.broken.append("model evaluation failed on shard %d: %s" % (idx, o[-400:]))
-            continue
-        for a, b, c in tups:
-            mism.append((mod[idx * shard + a], b, c))
     # ---- column-level model evaluation (compactions outside the segment-limit cases) ----
     colmod = []
+    mergemod = []
     for ci in cols:
-        if ci.get("died") or ci.get("fail") or ci["op"] == "merge":
+        if ci.get("died") or ci.get("fail"):
+            continue
+        if ci["op"] == "merge":
+            if not ci.get("illformed"):
+                mergemod.extend((ci, ser) for ser in ci.get("series") or [] if ser.get("out"))
             continue
         if ci.get("illformed") and ci.get("mode") != "stream":
             continue    # the non-streaming path re-cuts every record; the code-shaped model is the streaming compactor
@@ -512,7 +532,7 @@ def main(ck):
     # canaries (fail closed): copies of a real case with one observed time value changed MUST all come back as mismatches -
     # one canary for the plain comparison, one for the segment-limit comparison
     import copy
-    NCAN = 12
+    NCAN2 = 12
     ncanary = 0
     for want_limit in (False, True):
         src = next(((a, b) for a, b in colmod if bool(a.get("seglimit")) == want_limit and b.get("out") and b["out"][0]["t"]
@@ -527,36 +547,24 @@ def main(ck):
                        ("From Coq Require Import NArith ZArith List Bool. From OG Require Import C03.ColModel C03.ColCorr.\n"
                         "Import ListNotations. Open Scope N_scope.\n"
                         "Definition cases : list colcase := [\n%s\n].\n"
-                        "Definition M := Eval vm_compute in col_mismatches cases.\nPrint M.\n") % ";\n".join([colcase_coq(src[0], bad)] * NCAN)))
+                        "Definition M := Eval vm_compute in col_mismatches cases.\nPrint M.\n") % ";\n".join([colcase_coq(src[0], bad)] * NCAN2)))
         ncanary += 1
-    cres = ck.coq_eval_many(cfiles) if ok and cfiles else []
-    if ok and cfiles and len(cres) != len(cfiles):
-        ck.broken.append("column model evaluation: %d results for %d files" % (len(cres), len(cfiles)))
-    for _ in range(ncanary if len(cres) == len(cfiles) else 0):
-        rc2, o = cres.pop()
-        tups = eval_tuples(o, rc2, 3)
-        if tups is None or {t[0] for t in tups} != set(range(NCAN)):
-            ck.broken.append("C03 column canary: a corrupted case was not reported by the column model evaluation (read back: %s)"
-                             % (o[-300:] if tups is None else sorted(tups)[:NCAN]))
-    colmism = []
-    col_current = 0
-    for idx, (rc2, o) in enumerate(cres):
-        tups = eval_tuples(o, rc2, 3)
-        if tups is None:
-            ck.broken.append("column model evaluation failed on shard %d: %s" % (idx, o[-400:]))
-            continue
-        for a, b, c in tups:
-            ci, ser = colmod[idx * cshard + a]
-            if c == 0 and pad_segment_signature(ci) and ck.match_finding("C03-pad-segment-size"):
-                col_current += 1     # the tree pads by counter arithmetic (today's code) on a distinguishing input
-            else:
-                colmism.append(((ci, ser), b))
-    if colmism and not oracle and not col_viol:
-        (ci, ser), code = colmism[0]
-        ck.broken.append("correspondence C03 column model/implementation differs: column case %d op %s series %d: %s" % (
-            ci["colcase"], ci["op"], ser["sid"], COLCODES.get(code, str(code))))
-        ck.nofail_detail = {"kind": "column-correspondence", "code": code, "meaning": COLCODES.get(code, ""), "colcase": ci["colcase"],
-                            "op": ci["op"], "mode": ci["mode"], "history": ci["hist"], "series": ser}
+    # ---- out-of-order merge at column level ----
+    mshard = 40
+    mfiles = []
+    MHDR = ("From Coq Require Import NArith ZArith List Bool. From OG Require Import C03.ColModel C03.ColCorr C03.MergeCorr.\n"
+            "Import ListNotations. Open Scope N_scope.\n"
+            "Definition cases : list mergecase := [\n%s\n].\n"
+            "Definition M := Eval vm_compute in merge_mismatches cases.\nPrint M.\n")
+    for i in range(0, len(mergemod), mshard):
+        mfiles.append(("c03merge%d" % (i // mshard), MHDR % ";\n".join(mergecase_coq(a, b) for a, b in mergemod[i:i + mshard])))
+    mcan = next(((a, b) for a, b in mergemod if b["out"][0]["t"] and b["out"][0]["t"][0] and b.get("uin")), None)
+    if mcan is not None:
+        badm = copy.deepcopy(mcan[1])
+        badm["out"][0]["t"][0][0] -= 1      # a row of the merged series at another time than any input row
+        mfiles.append(("c03mergecanary", MHDR % ";\n".join([mergecase_coq(mcan[0], badm)] * NCAN2)))
+    elif ok and mergemod and not ck.replay:
+        ck.broken.append("C03 merge canary: no merge case to build the corrupted copy from")
     # ---- fault model evaluation ----
     fmod = []
     for fi in faults:
@@ -584,19 +592,105 @@ def main(ck):
             ffiles.append(("c03faultcanary", ("From Coq Require Import NArith ZArith List Bool. From OG Require Import C03.Model C03.FaultModel C03.FaultCorr.\n"
                                               "Import ListNotations. Open Scope N_scope.\n"
                                               "Definition cases : list fcase := [\n%s\n].\n"
-                                              "Definition M := Eval vm_compute in fmismatches cases.\nPrint M.\n") % ";\n".join([t[0]] * NCAN)))
+                                              "Definition M := Eval vm_compute in fmismatches cases.\nPrint M.\n") % ";\n".join([t[0]] * NCAN2)))
     if ok and fmod and not fcanary and not ck.replay:
         ck.broken.append("C03 fault canary: no fault case to build the corrupted copy from")
-    fres = ck.coq_eval_many(ffiles) if ok and ffiles else []
+    ck.log("phase: cases translated")
+    # ---- one parallel batch for all scratch evaluations ----
+    allfiles = files + cfiles + mfiles + ffiles
+    allres = ck.coq_eval_many(allfiles) if ok and allfiles else []
+    if ok and len(allres) != len(allfiles):
+        ck.broken.append("model evaluations: %d results for %d scratch files" % (len(allres), len(allfiles)))
+        allres = []
+    if allres:
+        res = allres[:len(files)]
+        cres = allres[len(files):len(files) + len(cfiles)]
+        mres = allres[len(files) + len(cfiles):len(files) + len(cfiles) + len(mfiles)]
+        fres = allres[len(files) + len(cfiles) + len(mfiles):]
+    else:
+        res, cres, mres, fres = [], [], [], []
+        if ok and allfiles:
+            ck.broken.append("model evaluations were not run")
+    ck.log("phase: model evaluations done (%d scratch files)" % len(allfiles))
+    # ---- results: crash cases ----
+    if canary and res:
+        rc2, o = res.pop()
+        tups = eval_tuples(o, rc2, 3)
+        if tups is None or {t[0] for t in tups} != set(range(NCAN)):
+            ck.broken.append("C03 canary: a corrupted case was not reported by the model evaluation (%d copies of a protocol instance "
+                             "with one changed crash image; read back: %s)" % (NCAN, o[-300:] if tups is None else sorted(tups)[:NCAN]))
+    elif ok and mod and not ck.replay and not canary:
+        ck.broken.append("C03 canary: no protocol instance with a non-empty crash image to build the corrupted case from")
+    mism = []
+    for idx, (rc2, o) in enumerate(res):
+        tups = eval_tuples(o, rc2, 3)
+        if tups is None:
+            ck.broken.append("model evaluation failed on shard %d: %s" % (idx, o[-400:]))
+            continue
+        for a, b, c in tups:
+            mism.append((mod[idx * shard + a], b, c))
+    # ---- results: column cases ----
+    if ok and cfiles and len(cres) != len(cfiles):
+        ck.broken.append("column model evaluation: %d results for %d files" % (len(cres), len(cfiles)))
+    for _ in range(ncanary if len(cres) == len(cfiles) else 0):
+        rc2, o = cres.pop()
+        tups = eval_tuples(o, rc2, 3)
+        if tups is None or {t[0] for t in tups} != set(range(NCAN2)):
+            ck.broken.append("C03 column canary: a corrupted case was not reported by the column model evaluation (read back: %s)"
+                             % (o[-300:] if tups is None else sorted(tups)[:NCAN2]))
+    colmism = []
+    col_current = 0
+    for idx, (rc2, o) in enumerate(cres):
+        tups = eval_tuples(o, rc2, 3)
+        if tups is None:
+            ck.broken.append("column model evaluation failed on shard %d: %s" % (idx, o[-400:]))
+            continue
+        for a, b, c in tups:
+            ci, ser = colmod[idx * cshard + a]
+            if c == 0 and pad_segment_signature(ci) and ck.match_finding("C03-pad-segment-size"):
+                col_current += 1     # the tree pads by counter arithmetic (today's code) on a distinguishing input
+            else:
+                colmism.append(((ci, ser), b))
+    if colmism and not oracle and not col_viol:
+        (ci, ser), code = colmism[0]
+        ck.broken.append("correspondence C03 column model/implementation differs: column case %d op %s series %d: %s" % (
+            ci["colcase"], ci["op"], ser["sid"], COLCODES.get(code, str(code))))
+        ck.nofail_detail = {"kind": "column-correspondence", "code": code, "meaning": COLCODES.get(code, ""), "colcase": ci["colcase"],
+                            "op": ci["op"], "mode": ci["mode"], "history": ci["hist"], "series": ser}
+    # ---- results: merge cases ----
+    mmism = []
+    if ok and mfiles and len(mres) != len(mfiles):
+        ck.broken.append("merge model evaluation: %d results for %d files" % (len(mres), len(mfiles)))
+    else:
+        if mcan is not None and mres:
+            rc2, o = mres.pop()
+            tups = eval_tuples(o, rc2, 2)
+            if tups is None or {t[0] for t in tups} != set(range(NCAN2)):
+                ck.broken.append("C03 merge canary: a corrupted case was not reported by the merge model evaluation (read back: %s)"
+                                 % (o[-300:] if tups is None else sorted(tups)[:NCAN2]))
+        for idx, (rc2, o) in enumerate(mres):
+            tups = eval_tuples(o, rc2, 2)
+            if tups is None:
+                ck.broken.append("merge model evaluation failed on shard %d: %s" % (idx, o[-400:]))
+                continue
+            for a, b in tups:
+                mmism.append((mergemod[idx * mshard + a], b))
+    if mmism and not oracle and not col_viol:
+        (ci, ser), code = mmism[0]
+        ck.broken.append("correspondence C03 merge model/implementation differs: column case %d series %d: %s" % (
+            ci["colcase"], ser["sid"], MERGECODES.get(code, str(code))))
+        ck.nofail_detail = {"kind": "merge-correspondence", "code": code, "meaning": MERGECODES.get(code, ""), "colcase": ci["colcase"],
+                            "mode": ci["mode"], "history": ci["hist"], "series": ser}
+    # ---- results: fault cases ----
     if ok and ffiles and len(fres) != len(ffiles):
         ck.broken.append("fault model evaluation: %d results for %d files" % (len(fres), len(ffiles)))
         fcanary = False
     if fcanary:
         rc2, o = fres.pop()
         tups = eval_tuples(o, rc2, 4)
-        if tups is None or {t[0] for t in tups} != set(range(NCAN)):
+        if tups is None or {t[0] for t in tups} != set(range(NCAN2)):
             ck.broken.append("C03 fault canary: a corrupted case was not reported by the fault model evaluation (read back: %s)"
-                             % (o[-300:] if tups is None else sorted(tups)[:NCAN]))
+                             % (o[-300:] if tups is None else sorted(tups)[:NCAN2]))
     fmism = []
     f_current = 0
     for idx, (rc2, o) in enumerate(fres):
@@ -657,6 +751,7 @@ def main(ck):
     ck.cov["column_cases"] = {"operations": len(cols), "histogram": colhist, "series_compared_with_column_model": len(colmod),
                               "series_with_a_multi_segment_chunk_lacking_a_column": len(col_nontriv),
                               "series_split_over_several_files_compared_with_limit_model": len([1 for a, b in colmod if a.get("seglimit") and len(b.get("out") or []) > 1]),
+                              "merged_series_compared_with_merge_model": len(mergemod), "merge_model_mismatches": len(mmism),
                               "model_mismatches": len(colmism), "series_matching_counter_padding_only": col_current,
                               "known_finding_failures": col_known,
                               "process_deaths_inside_known_finding_signature": col_died_known}
